@@ -470,11 +470,13 @@ def _only_uncovered(info):
 
 def pred_incomplete(s, info):
     """sparse set_col bookkeeping: rows/cols, coo, csc keep the first offending column only; csr keeps nothing"""
-    if s.get('kind') not in ('rc', 'coo', 'csr', 'csc') or not _only_uncovered(info):
+    if s.get('kind') not in ('rc', 'coo', 'csr', 'csc') or 'md' in s or not _only_uncovered(info):
         return False
     for f in info['fails']:
         want = sorted(map(tuple, f['expected']))
         got = sorted(map(tuple, f['observed']))
+        if not want:
+            return False
         if s['kind'] == 'csr':
             ok = got == [] and len(want) >= 1
         else:
@@ -649,7 +651,7 @@ def run(ctx):
     quick = ctx.tier == 'quick'
     # shapes below 9 cells: everything.  quick: half of the 3x3 supports (rotating with the seed), a quarter of the
     # (under-declared AND wrong values) combinations.  thorough: all of 3x3, a sixteenth of the 3x4 supports.
-    consts = dict(MaxC=3, SupMod9=2, SupMod12=1, CrossMod9=4, CrossMod12=1, ModeMod=4) if quick else \
+    consts = dict(MaxC=3, SupMod9=2, SupMod12=1, CrossMod9=4, CrossMod12=1, ModeMod=8) if quick else \
         dict(MaxC=4, SupMod9=1, SupMod12=16, CrossMod9=1, CrossMod12=4, ModeMod=1)
     consts['SupRem'] = ctx.seed % 16
     cfg = ctx.write_cfg('CheckPartials.cfg', _cfg(consts))
